@@ -6,7 +6,7 @@ SPEC = {
         "technique": ("machine-checked proof in Coq (frame invariant of the serialisation pipeline over all configurations, "
                       "fault schedules and file systems) + deterministic fault-point enumeration against the real "
                       "Config.save on real files, compared with the model by vm_compute"),
-        "text": ("Ten theorems over the statement-by-statement model of Config.save / dumps / to_tree / load "
+        "text": ("Eleven theorems over the statement-by-statement model of Config.save / dumps / to_tree / load "
                  "(coq/theories/Save.v: format lookup, then every field's to_basic in order with key-file opening -- which "
                  "may create the key file -- and encryption for secrets, nested and listed configurations, then the "
                  "formatter, and only then open(dest,'wb') + write). For all file systems, configurations, outcome "
@@ -14,9 +14,14 @@ SPEC = {
                  "byte-identical, touches no path that is not a key file of one of the secrets and opens nothing else for "
                  "writing; an unknown format touches nothing at all; a save that returns wrote exactly the bytes dumps "
                  "produced as its last write and load hands the decoder those bytes (so a decoder inverting the formatter "
-                 "returns the serialised tree); a streaming variant that opens first is shown to lose the file. Tied to "
+                 "returns the serialised tree); a streaming variant that opens first is shown to lose the file; over any "
+                 "history of saves of one configuration object with files changed by others in between, a file keeps "
+                 "its bytes unless someone else changed it or a save that returned had it as destination. Tied to "
                  "core.py by stream savefaults: every injectable fault point enumerated on a destination that holds a "
-                 "previous document, all five formats, with every open-for-writing audited."),
+                 "previous document, all five formats, with every open-for-writing audited, and histories of several saves "
+                 "on ONE configuration object (fault, repair, save, key file rotated / destination changed by someone "
+                 "else, save) where every successful save is loaded into a brand-new configuration and compared with an "
+                 "independent serialisation under the key files then on disk."),
         "note": ("Trusted: Coq kernel + vm_compute; the correspondence harness; the formatter and per-field encoders are "
                  "abstract outcomes (their bytes are C02/C04's business); a crash inside the final write is outside the "
                  "property. No axioms (Print Assumptions: closed under the global context)."),
@@ -31,8 +36,14 @@ SPEC = {
              "key files, also under ~), each combined with an earlier and a later field fault, formatter raising, values "
              "outside the format's domain (bytes under JSON/XML, 2^70 under BSON, NUL under XML), unwritable "
              "destination, absent destination, ~ destination, N = 0..3 plain fields with a fault at each i, plus the "
-             "unknown format name on top of every other fault kind; then seeded random schemas (depth <= 2) x random "
-             "0-2 faults x random key-file states. non-trivial = the destination existed before or a fault was injected; "
+             "unknown format name on top of every other fault kind; 11 histories per format on one configuration object "
+             "(key file short/empty/long -> repaired -> rotated twice; good -> damaged -> restored -> rotated; repaired "
+             "key + later field fault -> rotated; field fault -> good -> destination overwritten externally -> cipher "
+             "fault -> good; key file created -> deleted -> created again, destination deleted -> formatter fault -> "
+             "good; key file in a missing directory; several destinations; formats alternating; sub-configuration key "
+             "file repaired and rotated); then seeded random schemas (depth <= 2) x random 0-2 faults x random key-file "
+             "states, and random histories of 2-6 steps (saves with fresh faults, external writes/deletes of key files "
+             "and destinations). non-trivial = the destination existed before or a fault was injected; "
              "distinct = distinct (schema, values, faults, world)"),
     "trusted_base": [KERNEL, "Print Assumptions: closed under the global context (no axioms)", TIE, HARNESS,
                      "modelled, not verified: the file system as a map path -> bytes with a set of unwritable paths; "
@@ -44,7 +55,11 @@ SPEC = {
                      "interpreter facts used: open(p,'wb') truncates on open; the sys audit event 'open' fires for every "
                      "open attempt of builtins.open / io.open / os.open"],
     "assumptions": ["a crash inside the final file.write (after the open succeeded) is not covered, as in the property text",
-                    "no key-file context is open when save is called (every secret opens its key file afresh; C07 closed_no_key)",
+                    "no key-file context is open when save is called, also after an earlier save failed inside one: every KeyFile "
+                    "object is closed and holds no key between saves, so each save of a history starts from the file "
+                    "system alone (the model threads only the world through `save`; the KeyFile machine is C07's "
+                    "KeyFile.v). This assumption is CHECKED by the history cases: a key cached across saves shows as a "
+                    "document that differs from an independent serialisation and does not load back",
                     "sensitive_mask / virtual=True variants of dumps, lists or dicts of SecureField items and IncludeField "
                     "are not in the modelled schemas (generators avoid them)",
                     "the reload comparison skips configurations whose sub-configuration names its own key file and holds a "
